@@ -1,4 +1,6 @@
 """C17: a data-path argument means the value at that path in the validated document."""
+import copy
+
 from .. import coqenc as E
 from ..passes import Case, run_passes
 from ..runner import jval
@@ -103,6 +105,43 @@ def container_arg_rule(g, rg, doc):
     return RuleT(PathT([Prim(k) for k in path]), cond, [])
 
 
+def escaped_spec_check(g, direct):
+    """A literal mapping argument written in a spec with the escaped key '\\path' is compared literally: the rule parsed from the spec
+    judges like the rule built with the literal mapping (keys of any type, in any order, in the three positions from_spec looks at)."""
+    from ..terms import valida
+    v = valida()
+    keys = g.r.sample([1, None, 2.5, True, "n", "name", 0], g.r.randint(0, 2)) + [g.r.choice(["path", "path.len", "my_path", "xpath"])]
+    g.r.shuffle(keys)
+    m = {k: g.r.choice([["a"], 1, "x", None]) for k in keys}
+    esc = {(k.replace("path", "\\path") if isinstance(k, str) else k): x for k, x in m.items()}
+    doc = {"cfg": copy_value(m), "other": {"n": 1}, "lst": [copy_value(m), 1]}
+    pos = g.r.choice(["whole", "item", "value"])
+    if pos == "whole":
+        lit, sp = m, esc
+    elif pos == "item":
+        lit, sp = [m, 7], [esc, 7]
+    else:
+        lit, sp = {"k": m, "j": 1}, {"k": esc, "j": 1}
+    meth = g.r.choice(["equal_to", "not_equal_to"]) if pos != "item" else g.r.choice(["in_", "not_in"])
+    path_parts = g.r.choice([["cfg"], [{"type": "map_value"}], ["lst", 0]])
+
+    def api():
+        r = v.Rule(path=v.DataPath.from_part_specs(*copy.deepcopy(path_parts)), condition=getattr(v.Value, meth)(copy.deepcopy(lit)))
+        t = r.test(copy_value(doc))
+        return obs_rule_test(t)
+
+    def spec():
+        r = v.Rule.from_spec({"path": copy.deepcopy(path_parts), "condition": {"value." + meth.rstrip("_"): copy.deepcopy(sp)}})
+        t = r.test(copy_value(doc))
+        return obs_rule_test(t)
+    a, b = E.run_outcome(api), E.run_outcome(spec)
+    if a != b:
+        direct.append({"kind": "direct", "what": "a rule whose literal mapping argument is written with escaped keys in the spec judges differently from "
+                       "the rule built with the literal mapping", "mapping": repr(m)[:200], "position": pos, "callable": meth,
+                       "api": repr(a)[:200], "spec": repr(b)[:200]})
+    return 1
+
+
 def type_sensitive_rule(g, rg, doc):
     """A rule whose verdict depends on the TYPE of what its path argument selects (the data type of a number, a range bound):
     a number in the document is referred to by a concrete path."""
@@ -138,6 +177,8 @@ def run(tier, seed, model_ok, spec_ok, replay=None):
     n = 500 if tier == "quick" else 12000
     cases, direct, ndirect, nested_n = [], [], 0, 0
     for _ in range(n):
+        if g.r.random() < 0.08:
+            ndirect += escaped_spec_check(g, direct)
         doc = g.document(4, 4)
         rt = rg.rule(doc, cast_p=0.0, path_args_p=1.0)
         if g.r.random() < 0.15:
@@ -164,9 +205,14 @@ def run(tier, seed, model_ok, spec_ok, replay=None):
             # argument means is decided by the document being validated, not by an earlier one
             ndirect += 1
 
+            long_series = g.r.random() < 0.125
+
             def reused():
                 r = rt.build()
-                for d0 in (g.document(2, 3), twin_all(g, doc, force=True)):
+                # (one time in eight after a long series of other documents whose results are dropped at once: nothing may be keyed on
+                # the identity of objects that are gone)
+                series = [g.document(2, 3) for _ in range(40)] if long_series else [g.document(2, 3)]
+                for d0 in series + [twin_all(g, doc, force=True)]:
                     try:
                         r.test(d0)
                     except Exception:
